@@ -21,6 +21,9 @@ type GenCase struct {
 	T TypeTerm `json:"t"`
 	P string   `json:"p"`
 	F string   `json:"f"`
+	// Flagged: run with a non-default global -prefix while every plugin the user's files call keeps its
+	// classic name through -pluginprefix (so the sources are unchanged and only internal helpers are renamed)
+	Flagged bool `json:"flagged,omitempty"`
 }
 
 func (t *TypeTerm) String() string {
@@ -54,7 +57,12 @@ func (t *TypeTerm) Size() int {
 	return n
 }
 
-func (g *GenCase) String() string { return fmt.Sprintf("%s(%s) form=%s", g.P, g.T.String(), g.F) }
+func (g *GenCase) String() string {
+	if g.Flagged {
+		return fmt.Sprintf("%s(%s) form=%s flags=-prefix=gen,-pluginprefix=<called plugins keep derive*>", g.P, g.T.String(), g.F)
+	}
+	return fmt.Sprintf("%s(%s) form=%s", g.P, g.T.String(), g.F)
+}
 
 func readGenCases(path string) ([]GenCase, error) {
 	f, err := os.Open(path)
@@ -361,6 +369,10 @@ func genCaseFiles(g *GenCase, dir string) map[string]string {
 		}
 	default:
 		fmt.Fprintf(&cb, "func use(%s) %s {\n\t%s%s\n}\n", params, result, ret, expr)
+	}
+	if g.F == "nested" || g.F == "method" {
+		// an external test package next to the package (the loader creates both); the nested form needs two passes
+		files[dir+"/ext_test.go"] = "package p_test\n\nvar X = 1\n"
 	}
 	files[dir+"/types.go"] = withImports(tb.String())
 	if g.F == "testfile" {
